@@ -19,6 +19,14 @@
 //! strided subsets of the sorted query placed on both sides of positions 1024 / 4096 / 8192, so that a
 //! cover needs several rounds with overlaps far into the query (look-up batching, hash/colour pairing).
 //! The index is a real `RevIndex::create` on a scratch directory, built once per case.
+//!
+//! HISTORY family (generated after the other two, same request grammar): the case line carries a fourth
+//! parameter `h=<threads>:<n0>[r]+<n1>[r]+…` and the index of that case is built INCREMENTALLY inside a
+//! rayon pool of <threads>: `RevIndex::create` over the first n0 datasets (filesystem-backed collection),
+//! then one `update` per further segment that appends the next n_i datasets (the last segment takes all
+//! that is left); `r` = the index is closed and reopened (`RevIndex::open`) after that step.  The model
+//! and the specification do not look at the parameter: gather on an index that was extended must answer
+//! exactly what the model says about the collection (C09 proves the builds indistinguishable).
 use sourmash::index::revindex::{RevIndex, RevIndexOps};
 use sourmash::index::GatherResult;
 use sourmash::selection::Selection;
@@ -50,7 +58,34 @@ fn union(a: &[u64], b: &[u64]) -> Vec<u64> {
     v
 }
 
-fn gen_case(r: &mut Rng, o: &mut Out) {
+/// a build history for `nd` datasets: `<threads>:<n0>[r]+<n1>[r]…` (see the module comment)
+fn gen_history(r: &mut Rng, nd: usize) -> String {
+    let threads = *r.pick(&[1u64, 4]);
+    // the first build leaves at least two datasets for the extensions when there are that many: an
+    // update that appends SEVERAL datasets at once is the interesting one (its operands are merged with
+    // each other before they meet the stored value)
+    let n0 = if nd <= 2 {
+        r.range(0, nd as u64 - 1) as usize
+    } else if r.chance(1, 8) {
+        0
+    } else {
+        r.range(1, nd as u64 - 2) as usize
+    };
+    let rest = nd - n0;
+    let mut segs = vec![n0];
+    if rest >= 3 && r.chance(1, 2) {
+        let a = r.range(1, rest as u64 - 1) as usize;
+        segs.push(a);
+        segs.push(rest - a);
+    } else {
+        segs.push(rest);
+    }
+    let segs: Vec<String> =
+        segs.iter().map(|n| format!("{}{}", n, if r.chance(1, 2) { "r" } else { "" })).collect();
+    format!(" h={}:{}", threads, segs.join("+"))
+}
+
+fn gen_case(r: &mut Rng, o: &mut Out, hist: bool) {
     let scaled = *r.pick(&[1u64, 2]);
     let track = r.chance(1, 2);
     // universe: <= 40 hashes, all below the ceiling of scaled = 2 (2^63)
@@ -124,7 +159,8 @@ fn gen_case(r: &mut Rng, o: &mut Out) {
         let d = if d.is_empty() { vec![*r.pick(&uni)] } else { d };
         ds.push(d);
     }
-    o.case(&format!("{} {}", scaled, track as u8));
+    let h = if hist { gen_history(r, ds.len()) } else { String::new() };
+    o.case(&format!("{} {}{}", scaled, track as u8, h));
     for d in &ds {
         o.op(&format!("d {}", show_nats(d.iter().copied())));
     }
@@ -169,7 +205,7 @@ fn span(q: &[u64], a: usize, b: usize, stride: usize, phase: usize) -> Vec<u64> 
 
 /// LARGE family: a query of `nq` hashes; datasets are (unions of) ranges / strided subsets of the
 /// sorted query around positions 1024 / 4096 / 8192 (+ a few hashes foreign to the query).
-fn gen_large(r: &mut Rng, o: &mut Out, nq: usize, maxlen: usize) {
+fn gen_large(r: &mut Rng, o: &mut Out, nq: usize, maxlen: usize, hist: bool) {
     let scaled = *r.pick(&[1u64, 2]);
     let track = r.chance(1, 2);
     // the query: increasing, gaps of 1..4 (a gap >= 2 leaves room for a foreign hash), sometimes jumps
@@ -276,7 +312,8 @@ fn gen_large(r: &mut Rng, o: &mut Out, nq: usize, maxlen: usize) {
         ds.push(d);
         spans.push((a, b.min(nq)));
     }
-    o.case(&format!("{} {}", scaled, track as u8));
+    let h = if hist { gen_history(r, ds.len()) } else { String::new() };
+    o.case(&format!("{} {}{}", scaled, track as u8, h));
     for d in &ds {
         o.op(&format!("d {}", show_nats(d.iter().copied())));
     }
@@ -347,10 +384,26 @@ fn gen(a: &Args) {
         if nlarge > 0 && i % every == every / 2 && (li as u64) < nlarge {
             let nq = large_size(&mut r, li);
             // dataset pieces of at most 2000 / 3000 hashes keep the list-based Lean side fast
-            gen_large(&mut r, &mut o, nq, if a.tier == "thorough" { 3000 } else { 2000 });
+            gen_large(&mut r, &mut o, nq, if a.tier == "thorough" { 3000 } else { 2000 }, false);
             li += 1;
         }
-        gen_case(&mut r, &mut o);
+        gen_case(&mut r, &mut o, false);
+    }
+    // HISTORY family (after the streams above, which stay the same requests): the same two generators,
+    // the index built by create + update(s) (+ reopen) instead of one create
+    if a.cases > 0 {
+        return;
+    }
+    let (nh, nhl) = if a.tier == "thorough" { (3000u64, 60u64) } else { (200, 4) };
+    let every = nh / nhl;
+    let mut li = 0usize;
+    for i in 0..nh {
+        if i % every == every / 2 {
+            let nq = large_size(&mut r, li);
+            gen_large(&mut r, &mut o, nq, if a.tier == "thorough" { 3000 } else { 2000 }, true);
+            li += 1;
+        }
+        gen_case(&mut r, &mut o, true);
     }
 }
 
@@ -362,11 +415,14 @@ struct St {
     ds: Vec<Vec<u64>>,
     q: Vec<u64>,
     ab: Vec<u64>,
-    index: Option<(tempfile::TempDir, RevIndex)>,
+    /// `h=` parameter of the case line: (threads, [(number of datasets appended, reopen afterwards)])
+    hist: Option<(usize, Vec<(usize, bool)>)>,
+    // the index is dropped before its directory is removed
+    index: Option<(RevIndex, tempfile::TempDir)>,
 }
 
 fn new_state() -> St {
-    St { scaled: 1, track: false, ds: vec![], q: vec![], ab: vec![], index: None }
+    St { scaled: 1, track: false, ds: vec![], q: vec![], ab: vec![], hist: None, index: None }
 }
 
 fn bits(x: f64) -> String {
@@ -381,12 +437,59 @@ fn ensure_index(s: &mut St) -> Result<(), String> {
             .enumerate()
             .map(|(i, d)| make_sig(&format!("d{}", i), d, None, s.scaled))
             .collect();
-        let dir = scratch_dir();
-        let idx = RevIndex::create(dir.path().join("idx"), mem_collection(sigs), false)
-            .map_err(|e| format!("err {:?}", e))?;
-        s.index = Some((dir, idx));
+        let dir = fast_scratch_dir();
+        let idx = match &s.hist {
+            None => RevIndex::create(dir.path().join("idx"), mem_collection(sigs), false)
+                .map_err(|e| format!("err {:?}", e))?,
+            Some((threads, segs)) => build_history(dir.path(), &sigs, *threads, segs)?,
+        };
+        s.index = Some((idx, dir));
     }
     Ok(())
+}
+
+/// scratch directory on tmpfs when there is one (every create / update ends in a flush and a compaction,
+/// whose fsyncs dominate the run on a real filesystem; durability is not what this property is about)
+fn fast_scratch_dir() -> tempfile::TempDir {
+    let shm = std::path::Path::new("/dev/shm");
+    if shm.is_dir() {
+        if let Ok(d) = tempfile::Builder::new().prefix("verif-idx-").tempdir_in(shm) {
+            return d;
+        }
+    }
+    scratch_dir()
+}
+
+/// create over the first segment, one `update` per further segment, reopen where asked (all inside a
+/// pool of `threads`); the last segment takes every dataset that is left
+fn build_history(dir: &std::path::Path, sigs: &[sourmash::signature::Signature], threads: usize, segs: &[(usize, bool)]) -> Result<RevIndex, String> {
+    let paths = write_sig_files(&dir.join("sigs"), sigs);
+    let path = dir.join("idx");
+    let pool = rayon::ThreadPoolBuilder::new().num_threads(threads.max(1)).build().unwrap();
+    let n = sigs.len();
+    let mut k = segs.first().map(|x| x.0).unwrap_or(n).min(n);
+    if segs.len() <= 1 {
+        k = n;
+    }
+    let mut idx = pool
+        .install(|| RevIndex::create(&path, fs_collection(&paths[..k]), false))
+        .map_err(|e| format!("err {:?}", e))?;
+    let reopen = |idx: RevIndex| -> Result<RevIndex, String> {
+        drop(idx);
+        RevIndex::open(&path, false, None).map_err(|e| format!("err {:?}", e))
+    };
+    if segs.first().map(|x| x.1).unwrap_or(false) {
+        idx = reopen(idx)?;
+    }
+    for (i, (add, re)) in segs.iter().enumerate().skip(1) {
+        k = if i + 1 == segs.len() { n } else { (k + add).min(n) };
+        let coll = fs_collection(&paths[..k]);
+        idx = pool.install(|| idx.update(coll)).map_err(|e| format!("err {:?}", e))?;
+        if *re {
+            idx = reopen(idx)?;
+        }
+    }
+    Ok(idx)
 }
 
 fn query_mh(s: &St) -> sourmash::sketch::minhash::KmerMinHash {
@@ -397,7 +500,7 @@ fn query_mh(s: &St) -> sourmash::sketch::minhash::KmerMinHash {
 
 fn run_gather(s: &mut St, t: usize) -> Result<Vec<GatherResult>, String> {
     ensure_index(s)?;
-    let idx = &s.index.as_ref().unwrap().1;
+    let idx = &s.index.as_ref().unwrap().0;
     let qmh = query_mh(s);
     let (counter, query_colors, hash_to_color) = idx.prepare_gather_counters(&qmh);
     // `None` would reach `CollectionSet::selection()`, which is `todo!()`; the value is unused by gather
@@ -408,7 +511,7 @@ fn run_gather(s: &mut St, t: usize) -> Result<Vec<GatherResult>, String> {
 /// `counter_for_query`: `id:count` by ascending id
 fn run_counter(s: &mut St) -> Result<String, String> {
     ensure_index(s)?;
-    let idx = &s.index.as_ref().unwrap().1;
+    let idx = &s.index.as_ref().unwrap().0;
     let counter = idx.counter_for_query(&query_mh(s));
     let mut c: Vec<(u32, usize)> = counter.iter().map(|(k, v)| (*k, *v)).collect();
     c.sort_unstable();
@@ -423,7 +526,7 @@ fn run_counter(s: &mut St) -> Result<String, String> {
 /// the accessors are private) followed by QueryColors; run-length encoded over the sorted query
 fn run_colors(s: &mut St) -> Result<String, String> {
     ensure_index(s)?;
-    let idx = &s.index.as_ref().unwrap().1;
+    let idx = &s.index.as_ref().unwrap().0;
     let qmh = query_mh(s);
     let (_counter, query_colors, hash_to_color) = idx.prepare_gather_counters(&qmh);
     let h2c = serde_json::to_value(&hash_to_color).map_err(|e| format!("err {:?}", e))?;
@@ -468,6 +571,13 @@ fn step(s: &mut St, ws: &[&str]) -> String {
         "case" => {
             s.scaled = ws.get(2).map(|x| x.parse().unwrap()).unwrap_or(1);
             s.track = ws.get(3).map(|x| *x == "1").unwrap_or(false);
+            s.hist = ws.get(4).and_then(|x| x.strip_prefix("h=")).map(|h| {
+                let (t, segs) = h.split_once(':').unwrap();
+                (
+                    t.parse().unwrap(),
+                    segs.split('+').map(|x| (x.trim_end_matches('r').parse().unwrap(), x.ends_with('r'))).collect(),
+                )
+            });
             "ok".into()
         }
         "d" => {
